@@ -6,7 +6,7 @@ import re
 import sys
 
 gen = {}
-for fn in ('FFVerif/Gen/Constants.lean', 'FFVerif/Gen/Einsum.lean', 'FFVerif/Gen/CacheSets.lean'):
+for fn in ('FFVerif/Gen/Constants.lean', 'FFVerif/Gen/Einsum.lean', 'FFVerif/Gen/CacheSets.lean', 'FFVerif/Gen/Pins.lean'):
     for m in re.finditer(r'^def (\w+) : String := ("(?:[^"\\]|\\.)*")$', open(fn).read(), re.M):
         gen[m.group(1)] = m.group(2)
 for path in sys.argv[1:]:
